@@ -86,3 +86,11 @@ func SnapshotSummary(s *RefSnapshot) string {
 	sort.Strings(names)
 	return fmt.Sprintf("fv=%d inst=%s txn=%d %s", s.FormatVersion, s.Meta.InstanceID, s.Meta.LmdbTxnID, l.String())
 }
+
+func gunzip(blob []byte) ([]byte, error) {
+	zr, err := gzip.NewReader(bytes.NewReader(blob))
+	if err != nil {
+		return nil, err
+	}
+	return io.ReadAll(zr)
+}
